@@ -37,6 +37,13 @@ def cases(tier):
     for n, S in ((2, [0, 1]), (3, [0, 1, 2]), (3, [0, 2]), (4, [1, 3])):
         for ns in ((70001,) if tier == 'quick' else (70001, 140003)):
             yield {'n': n, 'r': max_ranks([2] * n), 'S': S, 'many': ns}
+    # structured states with exact cancellations in their bond amplitudes: GHZ, Hadamard-rotated GHZ, GHZ with a Hadamard
+    # gauge on every bond (the left environments of some prefixes have entries that sum to exactly zero)
+    for n in ([2, 3, 4] if tier == 'quick' else [2, 3, 4, 5, 6]):
+        for kind in ('ghz', 'hghz', 'ghz-hgauge'):
+            for k in range(1, n + 1):
+                for S in itertools.combinations(range(n), k):
+                    yield {'n': n, 'r': [1] + [2] * (n - 1) + [1], 'S': list(S), 'struct': kind}
     for n in ([1, 2, 3, 4] if tier == 'quick' else [1, 2, 3, 4, 5, 6]):
         mr = max_ranks([2] * n)
         alph = sorted({1, 2, max(mr)})
@@ -57,7 +64,22 @@ def run_case(case, seed):
     rng = rng_for({'n': case['n'], 'r': case['r']}, seed)
     n, rk, S = case['n'], case['r'], case['S']
     k = len(S)
-    if case.get('pol'):
+    if case.get('struct'):
+        H2 = np.array([[1.0, 1.0], [1.0, -1.0]]) / np.sqrt(2)
+        cores = []
+        for i in range(n):
+            c = np.zeros((1 if i == 0 else 2, 2, 1, 1 if i == n - 1 else 2), dtype=complex)
+            for a in range(2):
+                c[0 if i == 0 else a, a, 0, 0 if i == n - 1 else a] = 1.0 / np.sqrt(2) if i == 0 else 1.0
+            cores.append(c)
+        if case['struct'] == 'hghz':
+            cores = [np.einsum('st,atcb->ascb', H2, c) for c in cores]
+        elif case['struct'] == 'ghz-hgauge':
+            for i in range(n - 1):
+                cores[i] = np.einsum('ascb,bd->ascd', cores[i], H2)
+                cores[i + 1] = np.einsum('ab,bscd->ascd', H2, cores[i + 1])
+        st = tt_from(cores)
+    elif case.get('pol'):
         cores = []
         for i in range(n):
             c = np.zeros((1, 2, 1, 1), dtype=complex)
